@@ -24,7 +24,7 @@ REGISTRY = dict(
           "acc a permutation and only accepts strict improvements; minimize_bandwidth returns a permutation of 0..n-1 whose "
           "bandwidth on |M| (and on M) is <= matrix_bandwidth(M); the closing assert can never fire; permute_list/tuple/"
           "string/tensor are the same gather, inv_permutation is a two-sided inverse, inverting undoes permuting. "
-          "Assumed (contract, validated on every run): SciPy reverse_cuthill_mckee and torch.randperm return permutations "
+          "Purity (no optimiser function modifies the matrix or permutation it is given) is not a theorem: the model takes |M| as a pure function; it is checked bit-for-bit on every call of the real code. Assumed (contract, validated on every run): SciPy reverse_cuthill_mckee and torch.randperm return permutations "
           "of 0..n-1. Model tied to the code by exact correspondence (bit-identical bandwidths, identical permutations)."),
     note=("Trusted: Lean kernel + propext/Classical.choice/Quot.sound; Mathlib; hand-written Model.Bandwidth/Model.Perm tied by "
           "correspondence only (sizes 0..30); the thresholding inside minimize_bandwidth_above_threshold and RCM itself are an "
@@ -175,21 +175,72 @@ def contract_ok(n, perms):
     return all(sorted(p) == ident for p in perms)
 
 
+def bits(t):
+    """bit-exact snapshot of a tensor (float64 -> int64 view, so that -0.0 vs +0.0 and NaN payloads count)"""
+    import torch
+    c = t.detach().clone()
+    return c.view(torch.int64) if c.dtype == torch.float64 and c.numel() else c
+
+
+def same_bits(t, snap) -> bool:
+    import torch
+    return torch.equal(bits(t), snap)
+
+
+INPLACE_MSG = "{} modified its input {} in place (none of the optimiser functions is documented as in-place)"
+
+
 def run_minimize(M, samples, tapes: Tapes):
-    """-> (status, perm|None); status ok / notsymmetric / notoptimised / toomanysteps / emptymax"""
+    """-> (status, perm|None); status ok / notsymmetric / notoptimised / toomanysteps / emptymax.
+    `tapes.mutated` tells whether the input tensor is bit-identical after the call."""
     import torch
     from emu_mps.optimatrix import optimiser as opt
     t = torch.tensor(M, dtype=torch.float64).reshape(len(M), len(M))
+    snap = bits(t)
     with tapes:
         try:
             r = opt.minimize_bandwidth(t, samples=samples)
-            return "ok", [int(i) for i in r.tolist()]
+            out = "ok", [int(i) for i in r.tolist()]
         except AssertionError as e:
-            return ("notsymmetric" if "symmetric" in str(e) else "notoptimised"), None
+            out = ("notsymmetric" if "symmetric" in str(e) else "notoptimised"), None
         except NotImplementedError:
-            return "toomanysteps", None
+            out = "toomanysteps", None
         except RuntimeError:
-            return "emptymax", None
+            out = "emptymax", None
+    tapes.mutated = not same_bits(t, snap)
+    return out
+
+
+def purity_probe(fn: str, M, init=None, samples=1):
+    """call one optimiser function of the real module (real RCM) on a fresh tensor of M; failure string
+    if the matrix (or the initial permutation) is not bit-identical afterwards, else None."""
+    import torch
+    from emu_mps.optimatrix import optimiser as opt
+    n = len(M)
+    t = torch.tensor(M, dtype=torch.float64).reshape(n, n)
+    snap = bits(t)
+    it = torch.tensor(init if init is not None else list(range(n)), dtype=torch.int64)
+    isnap = bits(it)
+    try:
+        if fn == "minimize_bandwidth":
+            opt.minimize_bandwidth(t, samples=samples)
+        elif fn == "minimize_bandwidth_impl":
+            opt.minimize_bandwidth_impl(t, it)
+        elif fn == "minimize_bandwidth_global":
+            opt.minimize_bandwidth_global(t)
+        elif fn == "matrix_bandwidth":
+            opt.matrix_bandwidth(t)
+        elif fn == "is_symmetric":
+            opt.is_symmetric(t)
+        else:
+            opt.minimize_bandwidth_above_threshold(t, 0.5)
+    except (AssertionError, NotImplementedError, RuntimeError):
+        pass
+    if not same_bits(t, snap):
+        return INPLACE_MSG.format(fn, "matrix")
+    if not same_bits(it, isnap):
+        return INPLACE_MSG.format(fn, "initial permutation")
+    return None
 
 
 # ------------------------------------------------------------------ property oracle on the real code
@@ -243,7 +294,10 @@ def corr_bandwidth_sym(rep, rng, ncases):
         except RuntimeError:
             e = "emptymax"
         lines.append("bw.band " + pc.enc_matF(M)); exp.append(e); meta.append(("matrix_bandwidth", kind, n, M))
+        snap = bits(t)
         e2 = "1" if opt.is_symmetric(t) else "0"
+        if not same_bits(t, snap):
+            rep.fail(INPLACE_MSG.format("matrix_bandwidth/is_symmetric", "matrix"), dict(kind="inplace", fn="matrix_bandwidth", M=M))
         lines.append(f"bw.sym {f2b(ATOL)} {f2b(RTOL)} {pc.enc_matF(M)}"); exp.append(e2); meta.append(("is_symmetric", kind, n, M))
         rep.hist("is_symmetric", e2)
     return lines, exp, meta
@@ -263,9 +317,12 @@ def corr_global_impl(rep, rng, ncases):
             kind, M = gen_matrix(rng, n)
         t = torch.tensor(M, dtype=torch.float64).reshape(n, n)
         tapes = Tapes(rng, n, "forced", rng.choice(["mixed", "random"]))
+        snap = bits(t)
         if rng.random() < 0.4:
             with tapes:
                 r = opt.minimize_bandwidth_global(t)
+            if not same_bits(t, snap):
+                rep.fail(INPLACE_MSG.format("minimize_bandwidth_global", "matrix"), dict(kind="inplace", fn="minimize_bandwidth_global", M=M))
             lines.append(f"bw.global {pc.enc_matF(M)} {pc.enc_perms(tapes.rcm)}")
             perm = [int(i) for i in r.tolist()]
             from emu_mps.optimatrix.permutations import permute_tensor
@@ -274,9 +331,10 @@ def corr_global_impl(rep, rng, ncases):
             rep.hist("global_pick_index", min(tapes.rcm.index(perm), 10))
         else:
             init = rng.choice([list(range(n)), pc.rand_perm(rng, n)])
+            it = torch.tensor(init, dtype=torch.int64)
             with tapes:
                 try:
-                    r, bw = opt.minimize_bandwidth_impl(t, torch.tensor(init, dtype=torch.int64))
+                    r, bw = opt.minimize_bandwidth_impl(t, it)
                     perm = [int(i) for i in r.tolist()]
                     e = f"ok {pc.enc_perm(perm)} {f2b(bw)} {len(tapes.rcm)}"
                     msg = oracle_impl(M, init, perm, bw)
@@ -284,6 +342,9 @@ def corr_global_impl(rep, rng, ncases):
                         rep.fail(msg, dict(kind="impl", M=M, init=init, rcm=tapes.rcm))
                 except NotImplementedError:
                     e = "toomanysteps"
+            if not same_bits(t, snap) or it.tolist() != init:
+                rep.fail(INPLACE_MSG.format("minimize_bandwidth_impl", "matrix" if not same_bits(t, snap) else "initial permutation"),
+                         dict(kind="inplace", fn="minimize_bandwidth_impl", M=M, init=init))
             lines.append(f"bw.impl {NTHR} {pc.enc_matF(M)} {pc.enc_perm(init)} {pc.enc_perms(tapes.rcm)}")
             exp.append(e)
             meta.append(("impl", kind, n, dict(M=M, init=init, rcm=tapes.rcm)))
@@ -312,6 +373,9 @@ def corr_minimize(rep, rng, ncases, big):
         tapes = Tapes(rng, n, mode)
         torch.manual_seed(rng.randrange(2 ** 31))
         status, perm = run_minimize(M, samples, tapes)
+        if tapes.mutated:
+            rep.fail(INPLACE_MSG.format("minimize_bandwidth", "matrix"), dict(kind="inplace", fn="minimize_bandwidth", M=M, samples=min(samples, 2)))
+        rep.hist("input_has_negative_entry", any(x < 0 or (x == 0 and math.copysign(1, x) < 0) for row in M for x in row))
         if not contract_ok(n, tapes.rcm) or not contract_ok(n, tapes.rnd):
             rep.fail("oracle contract violated: reverse_cuthill_mckee / torch.randperm returned a non-permutation",
                      dict(kind="contract", M=M, samples=samples))
@@ -444,6 +508,11 @@ def search(rep: Report, seed: int, n_cases: int) -> None:
         if msg:
             rep.fail(msg, dict(kind="minimize", M=M, samples=len(tapes.rnd), mode=mode, rcm=tapes.rcm, rnd=tapes.rnd))
             return
+        for fn in ("minimize_bandwidth", "minimize_bandwidth_impl", "minimize_bandwidth_global", "above_threshold"):
+            msg = purity_probe(fn, M, pc.rand_perm(rng, n), 1) if (tapes.mutated or k % 5 == 0) else None
+            if msg:
+                rep.fail(msg, dict(kind="inplace", fn=fn, M=M, samples=1))
+                return
         init = pc.rand_perm(rng, n)
         tapes = Tapes(rng, n, "forced", "random")
         t = torch.tensor(M, dtype=torch.float64).reshape(n, n)
@@ -500,6 +569,8 @@ def replay(rep: Report, path: str) -> int:
         try:
             if d["kind"] == "helpers":
                 msg = pc.helper_laws(d["p"], d["q"], [f"q{i}" for i in range(len(d["p"]))], d["s"])
+            elif d["kind"] == "inplace":
+                msg = purity_probe(d["fn"], d["M"], d.get("init"), d.get("samples", 1))
             elif d["kind"] == "inv_int32":
                 msg = int32_probe(d["p"])
             elif d["kind"] == "impl":
